@@ -7,6 +7,7 @@ package gen
 import (
 	"context"
 	"fmt"
+	"net/http"
 	"reflect"
 	"sort"
 	"strings"
@@ -177,7 +178,7 @@ type System struct {
 
 // Assemble mounts every service of a design on a fresh muxer and builds the
 // generated clients over a SimNet that serves that muxer.
-func Assemble(design string, tape *verifsim.Tape, cfg simnet.Config, h Handler, a AuthFunc) (*System, error) {
+func Assemble(design string, tape *verifsim.Tape, cfg simnet.Config, h Handler, a AuthFunc, errh func(context.Context, http.ResponseWriter, error)) (*System, error) {
 	hs := registry[design]
 	if len(hs) == 0 {
 		return nil, fmt.Errorf("design %q not linked into this binary", design)
@@ -194,7 +195,7 @@ func Assemble(design string, tape *verifsim.Tape, cfg simnet.Config, h Handler, 
 		if err != nil {
 			return nil, err
 		}
-		srv, err := call(sh.NewServer, eps[0].Interface(), s.Mux, goahttp.RequestDecoder, goahttp.ResponseEncoder, nil, nil)
+		srv, err := call(sh.NewServer, eps[0].Interface(), s.Mux, goahttp.RequestDecoder, goahttp.ResponseEncoder, errh, nil)
 		if err != nil {
 			return nil, err
 		}
